@@ -28,7 +28,11 @@ META = {
             "j-th (j<3) packet after NEWKEYS of that direction; sequence numbers of the first packet "
             "sent/received after every NEWKEYS over 0-2 rekeys, both roles initiating; with mutual strict "
             "mode additionally x which peer leaves the kex-strict marker out of its re-key KEXINITs "
-            "(client / server / both).",
+            "(client / server / both). Cipher family dimension (new): every honest mutual-strict session above is run "
+            "for each cipher family - aes-ctr, aes-cbc, 3des-cbc, aes-gcm (thorough: each of the 9 ciphers) - x "
+            "{hmac-sha2-256, hmac-sha2-512-etm}, and with a re-key that moves from family A to family B (all 12 ordered "
+            "pairs; thorough also A -> B -> A over two re-keys); the sequence-number clause is judged for every NEWKEYS "
+            "whatever cipher it brings into force.",
     "note": "injected packets are plaintext (an attacker cannot forge encrypted ones); termination is "
             "asserted only when both sides advertised strict kex; positions after NEWKEYS only feed the "
             "'never a working edited session' clause",
@@ -36,6 +40,21 @@ META = {
 }
 
 X25519 = "curve25519-sha256@libssh.org"
+# cipher family dimension of the honest-session sequence-number observations: one representative per family
+# (thorough: every cipher paramiko offers); MACs: one classic, one encrypt-then-MAC (ignored by AES-GCM)
+FAMILY_REPS = (("ctr", "aes128-ctr"), ("cbc", "aes256-cbc"), ("3des", "3des-cbc"), ("gcm", "aes128-gcm@openssh.com"))
+FAMILIES = tuple(f for f, _ in FAMILY_REPS)
+ALL_CIPHERS = ("aes128-ctr", "aes192-ctr", "aes256-ctr", "aes128-cbc", "aes192-cbc", "aes256-cbc", "3des-cbc",
+               "aes128-gcm@openssh.com", "aes256-gcm@openssh.com")
+SEQ_MACS = ("hmac-sha2-256", "hmac-sha2-512-etm@openssh.com")
+
+
+def family(cipher):
+    if "gcm@" in cipher:
+        return "gcm"
+    if cipher.startswith("3des"):
+        return "3des"
+    return "ctr" if cipher.endswith("-ctr") else "cbc"
 TYPES = ("ignore", "debug", "unimplemented", "unknown192", "kexinit-dup", "service-request")
 HORIZON = 400.0
 
@@ -244,9 +263,16 @@ def seqno_scenario(cfg):
                     server_kw={"strict_kex": cfg["strict_s"]},
                     tclass=InitialOnlyMarker if "c" in omit else K.RecTransport,
                     sclass=InitialOnlyMarker if "s" in omit else K.RecTransport)
+        so = p.tc.get_security_options()
+        if cfg.get("ciphers"):
+            so.ciphers = (cfg["ciphers"][0],)
+        if cfg.get("mac"):
+            so.digests = (cfg["mac"],)
         p.start()
         p.auth()
-        for who in cfg["rekeys"]:
+        for i, who in enumerate(cfg["rekeys"]):
+            if cfg.get("ciphers"):
+                so.ciphers = (cfg["ciphers"][i + 1],)     # the re-key may move to another cipher family
             (p.tc if who == "c" else p.ts).renegotiate_keys()
             s.quiesce()
             p.tc.global_request("ping@verif", wait=True)
@@ -256,11 +282,22 @@ def seqno_scenario(cfg):
                "markers": {sd: [b"kex-strict-" in raw for side, dr, t, q, raw in p.glog
                                 if side == sd and dr == "tx" and t == 20] for sd in ("c", "s")},
                "c_agreed": p.tc.agreed_on_strict_kex, "s_agreed": p.ts.agreed_on_strict_kex,
+               "negotiated": {sd: [(a["local_cipher"], a["remote_cipher"], a["local_mac"], a["remote_mac"])
+                                   for a in t.agree_log] for sd, t in (("c", p.tc), ("s", p.ts))},
                "active": p.tc.active and p.ts.active}
         p.close()
         s.quiesce()
         return out
     return K.run(body)
+
+
+def cipher_tag(cfg, k=None):
+    """Cipher family in force after the k-th NEWKEYS of a seqno session (k=None: of the whole session)."""
+    cs = cfg.get("ciphers") or ["aes128-ctr"] * (len(cfg["rekeys"]) + 1)      # paramiko's first preference
+    if k is not None:
+        return family(cs[k])
+    fams = [family(c) for c in cs]
+    return fams[0] if len(set(fams)) == 1 else ">".join(fams)
 
 
 def judge_seqno(acc, cfg, ex):
@@ -269,11 +306,18 @@ def judge_seqno(acc, cfg, ex):
     omit = cfg.get("omit_marker_in_rekey", "")
     sfx = ":a-peer-omits-marker-in-rekey-KEXINIT" if omit else ""
     if ex.outcome != "ok":
-        acc.violation("honest-session-fails:%s:%s%s" % ("strict" if mutual else "not-mutual",
-                                                        K.exc_name(ex.error) or ex.outcome, sfx),
+        acc.violation("honest-session-fails:%s:%s%s|cipher=%s" % ("strict" if mutual else "not-mutual",
+                                                                  K.exc_name(ex.error) or ex.outcome, sfx,
+                                                                  cipher_tag(cfg)),
                       {"cfg": cfg, "error": repr(ex.error)}, replay)
         return
     v = ex.value
+    if cfg.get("ciphers"):
+        want_neg = [(c, c, cfg["mac"], cfg["mac"]) for c in cfg["ciphers"]]
+        for side in ("c", "s"):
+            if [tuple(x) for x in v["negotiated"][side]] != want_neg:
+                acc.violation("harness-cipher-not-as-configured", {"cfg": cfg, "negotiated": v["negotiated"]}, replay)
+                return
     for side in ("c", "s"):
         want = [True] + [side not in omit] * len(cfg["rekeys"])
         if omit and v["markers"][side] != want:
@@ -282,8 +326,8 @@ def judge_seqno(acc, cfg, ex):
             return
     for side in ("c", "s"):
         if v[side + "_agreed"] != mutual:
-            acc.violation("strict-mode-belief-differs-from-what-both-advertised:%s%s"
-                          % ("client" if side == "c" else "server", sfx), {"cfg": cfg}, replay)
+            acc.violation("strict-mode-belief-differs-from-what-both-advertised:%s%s|cipher=%s"
+                          % ("client" if side == "c" else "server", sfx, cipher_tag(cfg)), {"cfg": cfg}, replay)
     n_newkeys = 0
     for side in ("c", "s"):
         for dr in ("tx", "rx"):
@@ -292,16 +336,19 @@ def judge_seqno(acc, cfg, ex):
                 if t == 21 and i + 1 < len(seq):
                     n_newkeys += 1
                     nxt = seq[i + 1][1]
-                    which = "initial" if [x[0] for x in seq[:i]].count(21) == 0 else "rekey"
+                    k = [x[0] for x in seq[:i]].count(21)
+                    which = "initial" if k == 0 else "rekey"
                     if mutual and nxt != 0:
-                        acc.violation("seqno-not-reset-after-NEWKEYS:%s:%s:%s%s"
+                        acc.violation("seqno-not-reset-after-NEWKEYS:%s:%s:%s%s|cipher=%s"
                                       % ("client" if side == "c" else "server",
-                                         "outbound" if dr == "tx" else "inbound", which, sfx),
+                                         "outbound" if dr == "tx" else "inbound", which, sfx, cipher_tag(cfg, k)),
                                       {"cfg": cfg, "seqno_after_newkeys": nxt, "newkeys_seqno": q}, replay)
                     elif not mutual:
                         acc.count("not_mutual_seqno_%s" % ("continues" if nxt == q + 1 else "other"))
     if mutual:
-        acc.nt(("seqno", cfg["kex"], tuple(cfg["rekeys"]), omit))
+        acc.nt(("seqno", cfg["kex"], tuple(cfg["rekeys"]), omit, tuple(cfg.get("ciphers") or ()), cfg.get("mac")))
+        if cfg.get("ciphers"):
+            acc.count("seqno_sessions_cipher_" + cipher_tag(cfg).replace(">", "_then_"))
         if omit:
             acc.count("rekeys_with_marker_omitted_by_" + omit, len(cfg["rekeys"]))
         acc.count("newkeys_observed_strict", n_newkeys)
@@ -336,12 +383,56 @@ def configs(tier):
             rk = [[], ["c"], ["s"], ["c", "s"], ["s", "c"]] if tier == "quick" else \
                 [[], ["c"], ["s"], ["c", "c"], ["c", "s"], ["s", "c"], ["s", "s"]]
             for r in rk:
-                out.append(dict(base, k="seqno", rekeys=r))
-                if sc and ss and r:
-                    # re-key marker dimension: which peer(s) list the marker in the first KEXINIT only
-                    for omit in ("c", "s", "cs"):
-                        out.append(dict(base, k="seqno", rekeys=r, omit_marker_in_rekey=omit))
+                if not (sc and ss):
+                    out.append(dict(base, k="seqno", rekeys=r))      # nothing asserted: default algorithms only
+                    continue
+                # cipher family x strict kex: "sequence numbers restart at zero after every NEWKEYS" holds whatever
+                # cipher the NEWKEYS brings into force (AES-GCM does not put the number on the wire, the counters
+                # - and what UNIMPLEMENTED quotes, when a re-key is due, a later move to a MAC cipher - still count)
+                ciphers = [c for _, c in FAMILY_REPS] if tier == "quick" else list(ALL_CIPHERS)
+                for c in ciphers:
+                    for mac in SEQ_MACS:
+                        cs = [c] * (len(r) + 1)
+                        out.append(dict(base, k="seqno", rekeys=r, ciphers=cs, mac=mac))
+                        if r:
+                            # re-key marker dimension: which peer(s) list the marker in the first KEXINIT only
+                            for omit in ("c", "s", "cs"):
+                                out.append(dict(base, k="seqno", rekeys=r, ciphers=cs, mac=mac,
+                                                omit_marker_in_rekey=omit))
+                # the re-key moves to another cipher family (A -> B [-> A])
+                if r and (tier != "quick" or len(r) == 1):
+                    for _, a in FAMILY_REPS:
+                        for _, b in FAMILY_REPS:
+                            if a != b:
+                                out.append(dict(base, k="seqno", rekeys=r, ciphers=[a, b, a][:len(r) + 1],
+                                                mac=SEQ_MACS[0]))
     return out
+
+
+def fold_cipher_dimension(acc):
+    """Violations of the honest-session part carry the cipher family they were seen with ("key|cipher=fam").  A
+    defect that shows for every family gets the bare key; otherwise the families are listed in the key."""
+    groups, rest = {}, []
+    for v in acc.violations:
+        if "|cipher=" in v["key"]:
+            base, fam = v["key"].split("|cipher=")
+            groups.setdefault(base, []).append((fam, v))
+        else:
+            rest.append(v)
+    for base in sorted(groups):
+        fams = sorted(set(f for f, _ in groups[base]))
+        vs = [v for _, v in sorted(groups[base], key=lambda fv: fv[0])]
+        key = base if set(fams) >= set(FAMILIES) else "%s:cipher=%s" % (base, "+".join(fams))
+        rep = dict(vs[0])
+        rep["key"] = key
+        rep["count"] = sum(v["count"] for v in vs)
+        for w in rest:
+            if w["key"] == key:
+                w["count"] += rep["count"]
+                break
+        else:
+            rest.append(rep)
+    acc.violations = rest
 
 
 def work(chunk, acc):
@@ -361,15 +452,20 @@ def main(tier):
         "(injection, deletion or both) or one honest session with rekeys; nontrivial = distinct "
         "(kex, direction, injected type, position, order) with mutual strict mode where the packet was "
         "really injected before the victim's initial kex completed, distinct Terrapin (position, "
-        "deleted packet) pairs, and distinct (kex, rekey sequence) seqno observations",
+        "deleted packet) pairs, and distinct (kex, rekey sequence, marker omission, cipher per key set, MAC) seqno "
+        "observations",
         ["termination is asserted only when both sides advertised strict kex (DESIGN section 7)",
          "a peer that omits the marker from re-key KEXINITs is a stock transport whose later KEXINITs are "
          "composed without it; it keeps resetting sequence numbers (strict mode was negotiated)",
          "one delivery order = which direction is served first whenever both have a chunk in flight; "
          "each chunk is delivered only after the system is quiescent",
-         "the duplicate KEXINIT is a copy of the peer's real KEXINIT taken from the wire"])
+         "the duplicate KEXINIT is a copy of the peer's real KEXINIT taken from the wire",
+         "cipher family dimension: the client's SecurityOptions.ciphers/digests hold exactly the configured "
+         "algorithm before the (re-)exchange; what both transports really negotiated is compared with the "
+         "configuration (harness error otherwise); injection/deletion runs use paramiko's default algorithms"])
     cfgs = configs(tier)
     ck.merge(core.pmap(enum.chunks(cfgs, max(16, len(cfgs) // 24)), work))
+    fold_cipher_dimension(ck.acc)
     ck.extra["configs"] = len(cfgs)
     return ck.finish()
 
